@@ -75,6 +75,9 @@ EvSend ==
         /\ V({<<"NoLeak", \A s \in Rng(Rec.secrets) : SecretOK(s, Rec)>>,
               <<"RegistryRequestsGoHome", Rec.kind = "registry" => Rec.dest = d.host>>,
               <<"TokenOnlyForItsHost", Rec.tokhost # "" => Rec.tokhost = Rec.dest>>,
+              \* a cached token is reused only under the scheme it was obtained for: what goes out as a Bearer token to a
+              \* registry is never Basic material (user name and password), whatever that registry challenged with before
+              <<"SchemeKept", (Rec.kind = "registry" /\ Rec.authscheme = "bearer") => \A s \in Rng(Rec.secrets) : s[2] # "password">>,
               <<"ReuseKeyScopes", (Rec.tokhost # "" /\ cfg.cache = "shared" /\ Rec.kind = "registry") => Canon(Rec.tokscopes) = wantScopes>>,
               <<"TokenRequestScopes", (Rec.kind = "token" /\ cfg.cache # "single") => Canon(Rec.asked) = Canon(d.hints \o Required(d))>>,
               <<"Coalesce", (Rec.kind = "token" /\ cfg.coalesce /\ d.conc > 1 /\ cfg.cache \in {"shared", "single"}) => phaseTok = 0>>})
@@ -83,7 +86,9 @@ EvSend ==
 EvResp ==
   /\ Rec.e = "resp"
   /\ challenged' = IF Rec.kind = "registry" /\ Rec.status = 401 THEN challenged \cup {Rec.id} ELSE challenged
-  /\ UNCHANGED <<cfg, realm, dos, nreg, ntok, phaseTok, viol>>
+  \* a token fetch given up at its requester's deadline (status 0) is taken over by a waiter: it no longer counts
+  /\ phaseTok' = IF Rec.kind = "token" /\ Rec.status = 0 THEN phaseTok - 1 ELSE phaseTok
+  /\ UNCHANGED <<cfg, realm, dos, nreg, ntok, viol>>
 
 EvRet ==
   /\ Rec.e = "ret"
